@@ -400,6 +400,12 @@ func GetWafVariables(ctx *context.Context, name string) (value.Value, error) {
 			return v, nil
 		}
 		return ctx.WafSeverity, nil
+	// read-only FLOAT in vcl_log according to the variable table; no legacy WAF is simulated
+	case WAF_SQL_INJECTION_SCORE:
+		if v := lookupOverride(ctx, name); v != nil {
+			return v, nil
+		}
+		return &value.Float{Value: 0}, nil
 	case WAF_XSS_SCORE:
 		if v := lookupOverride(ctx, name); v != nil {
 			return v, nil
